@@ -2142,6 +2142,12 @@ func (m *Machine) processQueue() Result {
 	}
 	m.queueMx.Unlock()
 
+	// a mutation could have been queued after the loop's last length check by a
+	// caller which then lost the CAS above and returned Queued - dont strand it
+	if m.queueLen.Load() > 0 && !m.disposing.Load() {
+		m.processQueue()
+	}
+
 	if len(ret) == 0 {
 		return Canceled
 	}
